@@ -59,6 +59,7 @@ func (r *RunnerManager) Run(ctx context.Context) error {
 	if !r.running.CompareAndSwap(false, true) {
 		return ErrManagerAlreadyStarted
 	}
+	verifPoint("runner.run.afterCAS")
 
 	ctx, cancel := context.WithCancel(ctx)
 	defer cancel()
